@@ -132,6 +132,9 @@ func isFeltType(t types.Type) bool {
 		return false // harness-declared limb containers are plain [4]uint64
 	}
 	p := pkg.Path()
+	if strings.Contains(p, "/zzverif/") {
+		return false
+	}
 	return strings.HasSuffix(p, "/stark-curve/fp") || strings.HasPrefix(p, "github.com/NethermindEth/juno")
 }
 
